@@ -30,6 +30,32 @@ theorem runBody_spec (fail : Option Nat) (n i : Nat) :
         congr 1
         omega
 
+/-- a failing work item inside the loop range makes the body raise -/
+theorem runBody_raises (k : Nat) : ∀ (n i : Nat), i ≤ k → k < i + n →
+    (runBody (some k) i n).2 = true := by
+  intro n
+  induction n with
+  | zero => intro i h1 h2; omega
+  | succ n ih =>
+    intro i h1 h2
+    unfold runBody
+    by_cases hik : k = i
+    · simp [hik]
+    · have : (some k = some i) = False := by simp [hik]
+      simp only [this, if_false]
+      exact ih (i + 1) (by omega) (by omega)
+
+theorem apiPropagates_of_falsy (style : GuardStyle) (N k : Nat) (hk : k < N) :
+    apiPropagates style N (some k) false = true := by
+  unfold apiPropagates
+  rw [runBody_raises k N 0 (Nat.zero_le _) (by omega)]
+  cases style <;> rfl
+
+/-- a truthy `__exit__` swallows every failure of a `with`-guarded API -/
+theorem apiPropagates_truthy_with (N : Nat) (fail : Option Nat) :
+    apiPropagates .withStmt N fail true = false := by
+  simp [apiPropagates]
+
 /-- with `with` or `try/finally`, whatever fails, the calls are enter, some updates, exit -/
 theorem apiRun_guarded (style : GuardStyle) (hg : style.guarded = true) (N : Nat)
     (fail : Option Nat) :
